@@ -621,7 +621,8 @@ func (r *chunkReader) Read(data []byte) (int, error) {
 	bytesToRead := len(data)
 	r.l.Debug("Start cafs reader Read", zap.Int("length", bytesToRead))
 
-	if r.lastChunk && r.rdr == nil {
+	if (r.lastChunk || r.idx >= len(r.keys)) && r.rdr == nil {
+		// all leaves consumed, or empty object (no leaf at all)
 		return 0, io.EOF
 	}
 	for {
